@@ -47,8 +47,11 @@ type symPtr struct {
 }
 
 type chanV struct {
-	buf []value
-	cap int
+	buf    []value
+	cap    int
+	closed bool
+	sent   int // deposits so far (rendezvous tickets of unbuffered sends)
+	recvd  int // takes so far
 }
 
 type native struct {
